@@ -8,6 +8,7 @@ import (
 	"github.com/uber-go/gopatch/patch"
 
 	"verifmc/core"
+	"verifmc/gen"
 )
 
 // C06Case: a patch (or several) none of whose changes applies to the file.
@@ -25,7 +26,7 @@ func init() {
 	core.Register(&core.Property{
 		ID:    "C06",
 		Level: "model_checking",
-		Rule: "universe = non-matching (patch, file) pairs: patches of every pattern kind incl. near-misses, failing and holding package/import guards with a non-matching body, multi-change and multi-file patches x files = 4 base sources x 13 layout variants (gofmt-ed, not gofmt-ed, CRLF, no final newline, BOM, trailing whitespace, mixed indentation, odd comments, build tags, unsorted/duplicated/grouped imports) x all 24 combinations of {default,--diff,--print-only} x --skip-import-processing x --skip-generated x -v, plus the library API; near-misses in which the FILE has a position-encoded token the pattern lacks (variadic, alias, grouped declaration) and for-headers with init/post around the elision; two targets in one run (5 x 3 layouts x 4 patches x 26 flag sets). " +
+		Rule: "universe = non-matching (patch, file) pairs: patches of every pattern kind incl. near-misses, failing and holding package/import guards with a non-matching body, multi-change and multi-file patches x files = 4 base sources x 13 layout variants (gofmt-ed, not gofmt-ed, CRLF, no final newline, BOM, trailing whitespace, mixed indentation, odd comments, build tags, unsorted/duplicated/grouped imports) x all 24 combinations of {default,--diff,--print-only} x --skip-import-processing x --skip-generated x -v, plus the library API; near-misses in which an expression metavariable is first bound to every construct of the catalogue (statements and declarations inside a function literal) before a later argument / statement of the pattern fails; two-change patches in which one change declares as a metavariable a name the other uses as an ordinary identifier; near-misses in which the FILE has a position-encoded token the pattern lacks (variadic, alias, grouped declaration) and for-headers with init/post around the elision; two targets in one run (5 x 3 layouts x 4 patches x 26 flag sets). " +
 			"oracle needs no model: snapshot (bytes, inode, mtime, mode, no new entries), exact stdout/stderr, exit 0, Apply returns the input bytes. non-trivial = file is not in canonical gofmt form or a guard of the patch holds",
 		Assumptions: []string{"the generator's claim that nothing matches is cross-checked: the output of an applied change would contain the marker identifier `mark`, which no input contains"},
 		Bounds: func(tier string) map[string]any {
@@ -74,6 +75,9 @@ func c06Patches() []c06Patch {
 		one("nearmiss-label-ident", "@@\nvar L identifier\n@@\n-break L\n+continue L\n"),
 		one("nearmiss-for-header", "@@\nvar x identifier\n@@\n for i := 0; ...; i++ {\n-  _ = x\n+  mark(x)\n }\n"),
 		one("nearmiss-for-header-init", "@@\nvar x identifier\n@@\n for i := 0; ...; {\n-  _ = x\n+  mark(x)\n }\n"),
+		// a name that one change declares as a metavariable is an ordinary identifier in the other change
+		one("metavar-name-is-literal-later", "@@\nvar other expression\n@@\n-nomatch(other)\n+mark(other)\n\n@@\n@@\n-other.Lock()\n+other.mark()\n"),
+		one("metavar-name-is-literal-earlier", "@@\n@@\n-other.Lock()\n+other.mark()\n\n@@\nvar other identifier\n@@\n-nomatch(other)\n+mark(other)\n"),
 		one("two-changes", "@@\n@@\n-nomatch1()\n+mark()\n\n# second\n@ second @\nvar x expression\n@@\n-nomatch2(x)\n+mark(x)\n"),
 		{id: "two-patch-files", files: []string{"@@\n@@\n-nomatch1()\n+mark()\n", "@@\nvar n identifier\n@@\n import n \"fmt\"\n-n.Nomatch(1)\n+n.mark(1)\n"}, guard: true},
 	}
@@ -92,7 +96,7 @@ func c06Files() []c06File {
 		{"no-imports", "", ""},
 	}
 	body := func(pkgfmt string) string {
-		return "// S is a struct.\ntype S struct {\n\tA int `json:\"a\"`\n}\n\ntype Alias S\n\nconst C = 1\n\n// F does things.\nfunc F(a int, b string) (int, error) {\n\tx := a + 1 // trailing\n\tif x > 2 {\n\t\t" + pkgfmt + "Println(x, b)\n\t}\n\ts := append([]int{}, x)\n\t_ = s\n\tspread(s...)\n\tfor {\n\t\tbreak\n\t}\n\tother.Nomatch()\n\tother.Nomatch(1)\n\tfor range s {\n\t\t_ = x\n\t}\n\treturn x, nil\n}\n\ntype Alias2 = S\n\nvar (\n\tG = 1\n)\n"
+		return "// S is a struct.\ntype S struct {\n\tA int `json:\"a\"`\n}\n\ntype Alias S\n\nconst C = 1\n\n// F does things.\nfunc F(a int, b string) (int, error) {\n\tx := a + 1 // trailing\n\tif x > 2 {\n\t\t" + pkgfmt + "Println(x, b)\n\t}\n\ts := append([]int{}, x)\n\t_ = s\n\tspread(s...)\n\tfor {\n\t\tbreak\n\t}\n\tother.Nomatch()\n\tother.Nomatch(1)\n\tguard.Lock()\n\tfor range s {\n\t\t_ = x\n\t}\n\treturn x, nil\n}\n\ntype Alias2 = S\n\nvar (\n\tG = 1\n)\n"
 	}
 	var out []c06File
 	for _, b := range bases {
@@ -180,6 +184,29 @@ func c06Gen(tier string, emit func(any)) {
 				for _, fs := range c06FlagSets() {
 					emit(&C06Case{PatchID: p.id, Patches: p.files, FileID: a, File: pick(a).src, File2ID: b, File2: pick(b).src, Flags: fs})
 				}
+			}
+		}
+	}
+	// near-misses whose metavariable is bound, before a later part of the pattern fails, to every construct of the
+	// catalogue (statement and declaration constructs inside a function literal)
+	for _, k := range gen.Constructs() {
+		bound := k.Src
+		switch {
+		case k.Kind == "stmts":
+			bound = "func() {\n\t\t" + strings.ReplaceAll(k.Src, "\n", "\n\t\t") + "\n\t}"
+		case k.Kind == "decl" && !strings.HasPrefix(k.Src, "func"):
+			bound = "func() {\n\t\t" + strings.ReplaceAll(k.Src, "\n", "\n\t\t") + "\n\t}"
+		case k.Kind == "decl":
+			continue
+		}
+		file := "package a\n\nfunc site() {\n\thold(" + bound + ", 1)\n\tother()\n}\n"
+		for _, p := range [][2]string{
+			{"second-arg-fails", "@@\nvar x expression\n@@\n-hold(x, nomatch)\n+mark(x)\n"},
+			{"after-elision-fails", "@@\nvar x expression\n@@\n-hold(x, ..., nomatch)\n+mark(x)\n"},
+			{"next-statement-fails", "@@\nvar x, y expression\n@@\n-hold(x, y)\n-nomatch()\n+mark(x)\n"},
+		} {
+			for _, fs := range [][]string{{"API"}, {}, {"--print-only"}, {"--diff"}} {
+				emit(&C06Case{PatchID: "catalogue/" + p[0], Patches: []string{p[1]}, FileID: "K/" + k.ID, File: file, Flags: fs})
 			}
 		}
 	}
